@@ -848,20 +848,39 @@ impl Prioritize {
                             }))
                         }
                         Some(Frame::PushPromise(pp)) => {
-                            let mut pushed =
-                                stream.store_mut().find_mut(&pp.promised_id()).unwrap();
-                            pushed.is_pending_push = false;
-                            // Transition stream from pending_push to pending_open
-                            // if possible
-                            if !pushed.pending_send.is_empty() {
-                                if counts.can_inc_num_send_streams() {
-                                    counts.inc_num_send_streams(&mut pushed);
-                                    self.pending_send.push(&mut pushed);
-                                } else {
-                                    self.queue_open(&mut pushed);
+                            match stream.store_mut().find_mut(&pp.promised_id()) {
+                                Some(mut pushed) => {
+                                    pushed.is_pending_push = false;
+                                    // Transition stream from pending_push to pending_open
+                                    // if possible
+                                    if !pushed.pending_send.is_empty() {
+                                        if counts.can_inc_num_send_streams() {
+                                            counts.inc_num_send_streams(&mut pushed);
+                                            self.pending_send.push(&mut pushed);
+                                        } else {
+                                            self.queue_open(&mut pushed);
+                                        }
+                                    }
+                                    Frame::PushPromise(pp)
+                                }
+                                None => {
+                                    // The promised stream was closed and forgotten
+                                    // (handle dropped, GOAWAY received, ...) while its
+                                    // PUSH_PROMISE was still queued: there is nothing
+                                    // left to announce.
+                                    tracing::trace!(
+                                        "dropping PUSH_PROMISE of forgotten stream {:?}",
+                                        pp.promised_id()
+                                    );
+                                    if !stream.pending_send.is_empty()
+                                        || stream.state.is_scheduled_reset()
+                                    {
+                                        self.pending_send.push(&mut stream);
+                                    }
+                                    counts.transition_after(stream, is_pending_reset);
+                                    continue;
                                 }
                             }
-                            Frame::PushPromise(pp)
                         }
                         Some(frame) => frame.map(|_| {
                             unreachable!(
